@@ -60,6 +60,39 @@ fn main() {
                 vh::c02::run(seed, &tier, shard, nshards, collide)
             }
         }
+        "fetchseq" => {
+            let prop = get("prop", "C06");
+            if let Some(path) = kv.get("replay") {
+                let v: serde_json::Value = serde_json::from_str(&std::fs::read_to_string(path).unwrap()).unwrap();
+                vh::fetchseq::replay(
+                    &prop,
+                    serde_json::from_value(v["algo"].clone()).unwrap(),
+                    serde_json::from_value(v["script"].clone()).unwrap(),
+                )
+            } else {
+                vh::fetchseq::run(&prop, seed, &tier, shard, nshards)
+            }
+        }
+        "c16" => {
+            let replay = kv.get("replay").map(|path| {
+                let v: serde_json::Value = serde_json::from_str(&std::fs::read_to_string(path).unwrap()).unwrap();
+                serde_json::from_value(v["case"].clone()).unwrap()
+            });
+            vh::c16::run(seed, &tier, shard, nshards, &out, replay)
+        }
+        "c01" | "c17hyb" => {
+            let collide = cmd == "c17hyb";
+            if let Some(path) = kv.get("replay") {
+                let v: serde_json::Value = serde_json::from_str(&std::fs::read_to_string(path).unwrap()).unwrap();
+                vh::c01::replay(
+                    if collide { "C17" } else { "C01" },
+                    serde_json::from_value(v["cfg"].clone()).unwrap(),
+                    serde_json::from_value(v["script"].clone()).unwrap(),
+                )
+            } else {
+                vh::c01::run(seed, &tier, shard, nshards, collide)
+            }
+        }
         other => {
             eprintln!("unknown subcommand {other}");
             std::process::exit(2);
